@@ -218,19 +218,23 @@ def effV1 (reg : List String) (ss : SrvStream) : Option String :=
   if ss.sendCompress ≠ ss.sendName then (if reg.contains ss.sendCompress then some ss.sendCompress else none)
   else ss.compV1
 
+/-- the legacy compressor SendMsg will use: dropped when the handler changed the name -/
+def effV0 (ss : SrvStream) : Option String :=
+  if ss.sendCompress ≠ ss.sendName then none else ss.compV0
+
 theorem send_frame (k : Codec) (reg : List String) (ss : SrvStream) (d : Bytes) :
-    (ss.send k reg d).2 = prepareMsg k ss.compV0 (effV1 reg ss) d := by
-  unfold SrvStream.send effV1
+    (ss.send k reg d).2 = prepareMsg k (effV0 ss) (effV1 reg ss) d := by
+  unfold SrvStream.send effV0 effV1
   by_cases h : ss.sendCompress ≠ ss.sendName <;> simp [h]
 
 theorem send_state (k : Codec) (reg : List String) (ss : SrvStream) (d : Bytes) :
-    (ss.send k reg d).1.compV0 = ss.compV0 ∧ (ss.send k reg d).1.sendCompress = ss.sendCompress ∧
+    effV0 (ss.send k reg d).1 = effV0 ss ∧ (ss.send k reg d).1.sendCompress = ss.sendCompress ∧
     effV1 reg (ss.send k reg d).1 = effV1 reg ss := by
-  unfold SrvStream.send effV1
+  unfold SrvStream.send effV0 effV1
   by_cases h : ss.sendCompress ≠ ss.sendName <;> simp [h]
 
 theorem sendAll_frames (k : Codec) (reg : List String) (ss : SrvStream) (ds : List Bytes) :
-    (sendAll k reg ss ds).2 = ds.map (prepareMsg k ss.compV0 (effV1 reg ss)) := by
+    (sendAll k reg ss ds).2 = ds.map (prepareMsg k (effV0 ss) (effV1 reg ss)) := by
   induction ds generalizing ss with
   | nil => rfl
   | cons d t ih =>
@@ -264,12 +268,12 @@ def Consistent (c0 c1 : Option String) (nm : String) : Prop :=
 theorem setSend_consistent (reg : List String) (ss : SrvStream) (o : Option String)
     (hs : ss.headerSent = false) (hsame : ss.sendCompress = ss.sendName)
     (hI : Consistent ss.compV0 ss.compV1 ss.sendName)
-    (hreg : identity ∉ reg ∧ "" ∉ reg)
-    (hx : ss.compV0 = none ∨ o ≠ some identity) :
-    Consistent (applySetSend reg ss o).compV0 (effV1 reg (applySetSend reg ss o)) (applySetSend reg ss o).sendCompress := by
-  have keep : Consistent ss.compV0 (effV1 reg ss) ss.sendCompress := by
-    have : effV1 reg ss = ss.compV1 := by simp [effV1, hsame]
-    rw [this, hsame]; exact hI
+    (hreg : identity ∉ reg ∧ "" ∉ reg) :
+    Consistent (effV0 (applySetSend reg ss o)) (effV1 reg (applySetSend reg ss o)) (applySetSend reg ss o).sendCompress := by
+  have keep : Consistent (effV0 ss) (effV1 reg ss) ss.sendCompress := by
+    have h1 : effV1 reg ss = ss.compV1 := by simp [effV1, hsame]
+    have h0 : effV0 ss = ss.compV0 := by simp [effV0, hsame]
+    rw [h1, h0, hsame]; exact hI
   cases o with
   | none => exact keep
   | some n =>
@@ -277,19 +281,17 @@ theorem setSend_consistent (reg : List String) (ss : SrvStream) (o : Option Stri
     rcases setSend_cases reg ss n hs with ⟨he, hn⟩ | he
     · rw [he]
       by_cases hnm : n = ss.sendName
-      · have : effV1 reg { ss with sendCompress := n } = ss.compV1 := by simp [effV1, hnm]
-        rw [this]; simp only; rw [hnm]; exact hI
+      · have h1 : effV1 reg { ss with sendCompress := n } = ss.compV1 := by simp [effV1, hnm]
+        have h0 : effV0 { ss with sendCompress := n } = ss.compV0 := by simp [effV0, hnm]
+        rw [h1, h0]; simp only; rw [hnm]; exact hI
       · have heff : effV1 reg { ss with sendCompress := n } = if n ∈ reg then some n else none := by
           simp [effV1, hnm]
-        rw [heff]
+        have heff0 : effV0 { ss with sendCompress := n } = none := by simp [effV0, hnm]
+        rw [heff, heff0]
         simp only
         rcases hn with hn | ⟨hn1, _⟩
         · subst hn
-          have hc0 : ss.compV0 = none := by
-            rcases hx with hx | hx
-            · exact hx
-            · exact absurd rfl hx
-          rw [hc0, if_neg hreg.1]
+          rw [if_neg hreg.1]
           constructor
           · decide
           · intro n hn; simp [usedComp] at hn
